@@ -6,11 +6,11 @@
    failures, the stop signal); a schedule is a list of thread ids (with the select alternative taken) and
    environment firings; `run` skips what is not enabled, so the theorems quantify over EVERY interleaving of every
    trigger - Stop included - with every other one. *)
-From Coq Require Import NArith String List Bool Arith.
+From Coq Require Import NArith String List Bool Arith Permutation.
 From UPF Require Import Base.LTS Model.Teardown Proofs.TeardownInv Proofs.TeardownProofs Proofs.TeardownStop
   Proofs.TeardownForget Proofs.TeardownLive Proofs.TeardownBounded
   Proofs.TeardownB1 Proofs.TeardownB2 Proofs.TeardownB3 Proofs.TeardownB4 Proofs.TeardownB5 Proofs.TeardownB6
-  Proofs.TeardownB7.
+  Proofs.TeardownB7 Proofs.TeardownB8.
 Import ListNotations.
 Open Scope nat_scope.
 
@@ -35,23 +35,27 @@ Theorem C10_once_at_most : forall cfg ev sch i x,
 Proof. exact at_most_once_all. Qed.
 Print Assumptions C10_once_at_most.
 
-(* an association whose Shutdown has completed: its store is empty and each of its sessions was deleted
-   from the datapath exactly once *)
+(* an association whose Shutdown has completed: its store is empty and every session that was EVER installed for it
+   - the configured ones (third conjunct) and those established by requests that were handled before the teardown;
+   sessions deleted by requests in flight included - was deleted from the datapath exactly once.  Session Deletion /
+   Establishment Requests in flight are datagrams of the model (DDelete / DEstablish): they are handled under handleMu
+   or dropped once pConn.shutdown is closed, which is what makes this true. *)
 Theorem C10_once : forall cfg ev sch i c a,
   nodup_cfg cfg -> nth_error cfg i = Some c ->
   nth_error (s_asc (run (init cfg ev) sch)) i = Some a -> a_once a = ODone ->
-  a_store a = [] /\ forall x, In x (c_sess c) -> deleted (run (init cfg ev) sch) i x = 1.
+  a_store a = [] /\ (forall x, In x (a_inst a) -> deleted (run (init cfg ev) sch) i x = 1)
+  /\ (forall x, In x (c_sess c) -> In x (a_inst a)).
 Proof. exact ended_exactly_once. Qed.
 Print Assumptions C10_once.
 
 (* when node.done is closed - the earliest moment at which Done() can return and main can exit - every connection
-   the node ever created has removed all its sessions from the datapath (in order, each once: a_del = the session
-   list) and is gone from pConns; a peer that was never accepted was never touched *)
-Theorem C10_once_at_exit : forall cfg ev sch i c a,
+   the node ever created has an empty store, has deleted exactly the sessions ever installed for it (each once, see
+   C10_once_at_most) and is gone from pConns; a peer that was never accepted was never touched *)
+Theorem C10_once_at_exit : forall cfg ev sch i a,
   cclosed (n_done (s_node (run (init cfg ev) sch))) = true ->
-  nth_error cfg i = Some c -> nth_error (s_asc (run (init cfg ev) sch)) i = Some a ->
+  nth_error (s_asc (run (init cfg ev) sch)) i = Some a ->
   in_map (run (init cfg ev) sch) i = false
-  /\ ((a_del a = c_sess c /\ a_store a = []) \/ (crt a = false /\ a_del a = [] /\ a_store a = c_sess c)).
+  /\ ((Permutation (a_del a) (a_inst a) /\ a_store a = []) \/ (crt a = false /\ a_once a = ONew)).
 Proof. exact clean_at_exit. Qed.
 Print Assumptions C10_once_at_exit.
 
@@ -108,13 +112,15 @@ Print Assumptions C10_no_deadlock_without_stop.
    `good` (Proofs/TeardownBounded.v): no panic, and
    - with Stop among the events: a state in which nothing can move is one where Done() has returned and main has
      exited - Stop completes on every schedule, there is no deadlock -, and whenever node.done is closed every
-     connection the node created has deleted exactly its sessions and is out of pConns;
+     connection the node created has deleted exactly the sessions ever installed for it and is out of pConns (the
+     instances cfg11 race a Session Deletion and a Session Establishment in flight with each ending);
    - without Stop: a state in which no thread can move is healthy and has forgotten the ended associations, and when
      nothing at all can move every association that was given a reason to end has ended. *)
 Definition C10_instances : list (list acfg * list env) :=
   [(cfg1, ev1); (cfg2, ev2); (cfg3, ev3); (cfg4, ev4);
    (cfg5, ev5a); (cfg5, ev5b); (cfg5, ev5c); (cfg5, ev5d); (cfg6, [EStop]); (cfg7, [EStop]);
-   (cfg4, ev8); (cfg9, ev8); (cfg10, ev10)].
+   (cfg4, ev8); (cfg9, ev8); (cfg10, ev10);
+   (cfg11, ev11a); (cfg11, ev11b); (cfg11, ev11c); (cfg11, ev11d)].
 
 Theorem C10_no_deadlock_bounded : forall cfg ev, In (cfg, ev) C10_instances ->
   forall s, reach (init cfg ev) s -> good cfg ev s = true.
@@ -133,20 +139,27 @@ Proof.
   destruct H as [H|H]; [injection H as <- <-; exact (instance_sound fuel_1m cfg4 ev8 inst8_ok)|].
   destruct H as [H|H]; [injection H as <- <-; exact (instance_sound fuel_1m cfg9 ev8 inst9_ok)|].
   destruct H as [H|H]; [injection H as <- <-; exact (instance_sound fuel_2m cfg10 ev10 inst10_ok)|].
+  destruct H as [H|H]; [injection H as <- <-; exact (instance_sound fuel_1m cfg11 ev11a inst11a_ok)|].
+  destruct H as [H|H]; [injection H as <- <-; exact (instance_sound fuel_1m cfg11 ev11b inst11b_ok)|].
+  destruct H as [H|H]; [injection H as <- <-; exact (instance_sound fuel_1m cfg11 ev11c inst11c_ok)|].
+  destruct H as [H|H]; [injection H as <- <-; exact (instance_sound fuel_1m cfg11 ev11d inst11d_ok)|].
   destruct H.
 Qed.
 Print Assumptions C10_no_deadlock_bounded.
 
 (* stopping completes in bounded time: every schedule of enabled steps is shorter than the bound (exhaustive
-   levels).  Without Stop: one association, all triggers < 28; two associations < 35.  With Stop: one association
-   with a release racing Stop < 39; Stop with two live associations < 47. *)
+   levels).  Without Stop: one association, all triggers < 34; two associations < 39.  With Stop: one association
+   with a release racing Stop < 41; Stop with two live associations < 49; Stop racing a Session Deletion and a
+   Session Establishment in flight < 45. *)
 Theorem C10_stop_terminates_bounded :
-  (forall sch s, run_strict (init cfg1 ev1) sch = Some s -> List.length sch < 28) /\
-  (forall sch s, run_strict (init cfg4 ev4) sch = Some s -> List.length sch < 35) /\
-  (forall sch s, run_strict (init cfg5 ev5b) sch = Some s -> List.length sch < 39) /\
-  (forall sch s, run_strict (init cfg4 [EStop]) sch = Some s -> List.length sch < 47).
+  (forall sch s, run_strict (init cfg1 ev1) sch = Some s -> List.length sch < 34) /\
+  (forall sch s, run_strict (init cfg4 ev4) sch = Some s -> List.length sch < 39) /\
+  (forall sch s, run_strict (init cfg5 ev5b) sch = Some s -> List.length sch < 41) /\
+  (forall sch s, run_strict (init cfg4 [EStop]) sch = Some s -> List.length sch < 49) /\
+  (forall sch s, run_strict (init cfg11 ev11a) sch = Some s -> List.length sch < 45).
 Proof.
   repeat split; apply level_bound;
-    [exact inst1_terminates | exact inst4_terminates | exact inst5b_terminates | exact inst8_terminates].
+    [exact inst1_terminates | exact inst4_terminates | exact inst5b_terminates | exact inst8_terminates
+    | exact inst11a_terminates].
 Qed.
 Print Assumptions C10_stop_terminates_bounded.
